@@ -109,6 +109,8 @@ MOS = [
        functions=[("bin/kyrodb_server.rs", n) for n in ("query", "delete", "update_metadata")], target="kyrodb_server"),
     MO("O10.4/search_metadata_gate", "build_search_response: with a tenant, needs_metadata (the gate of the per-candidate ownership / namespace re-check) is true before the first candidate is looked at",
        lambda F: search_metadata_gate(F), functions=[("bin/kyrodb_server.rs", "build_search_response")], target="kyrodb_server"),
+    MO("O10.4/filter_delete_scoped", "BatchDelete by filter: with a tenant a scoping clause is pushed first and the clause vector is never replaced or emptied before it reaches the engine",
+       lambda F: filter_delete_scoped(F), functions=[("bin/kyrodb_server.rs", "batch_delete")], target="kyrodb_server"),
     MO("O10.5/cache_scope", "query_cache_scope: tenant index (when there is a tenant), namespace and filter (when present) are hashed into the scope on every path to finish()",
        lambda F: cache_scope(F), functions=[("bin/kyrodb_server.rs", "query_cache_scope")], target="kyrodb_server"),
     MO("O10.4/ownership_test", "query / delete / update_metadata / bulk_query / build_search_response (search results): the ownership test compares the stored __tenant_idx__ with the caller's tenant index, the namespace test the stored namespace with the requested one, "
@@ -224,6 +226,39 @@ def search_metadata_gate(F):
         return [Result("violated" if r.verdict == "holds" else "inconclusive", "build_search_response no longer derives needs_metadata from tenant.is_some(): with a tenant and no namespace / filter the ownership "
                        "re-check of search candidates is skipped", queries=r.queries, seconds=r.seconds, sample={"fn": fc.name, "kind": "FOLLOWS", "A": T.name, "B": SET.name})]
     return [fc.follows(T, SET, exit="any", exit_ev=LOOP)]
+
+
+def filter_delete_scoped(F):
+    """BatchDelete by filter: the engine receives AND(tenant clause, [namespace clause], caller's filter).  Decided: with a tenant, a
+    clause is pushed into `filters` before the caller's filter, the vector is never re-assigned (or cleared / truncated) between that push
+    and the engine call, and the engine call is reached only after it.  (There is no second ownership check on this path.)"""
+    f = RPC("batch_delete")
+    ENG = call(r"= TieredEngine::batch_delete_by_metadata_filter\(", name="engine.batch_delete_by_metadata_filter(combined)")
+    fc = FnCheck(F, f, containing=ENG)
+    if fc.fn is None:
+        return [fc.missing()]
+    fn = fc.fn
+    fl = (fn.debug.get("filters") or "").strip()
+    if not re.match(r"^_\d+$", fl):
+        return [Result("inconclusive", "local `filters` not found in the debug info of batch_delete")]
+    PUSH = call(r"= Vec::<(kyrodb_engine::proto::)?MetadataFilter>::push\(", name="filters.push(clause)")
+    T_SOME = Arm(r"^discr\(\(\*\{&\(\(_\d+ as Continue\)\.0: Option<TenantContext>\)\}\)\)$", {"1"}, name="tenant is Some (filter arm)", nth=-1)
+    sw = [b for b in Arm(r"^discr\(\(\*\{&\(\(_\d+ as Continue\)\.0: Option<TenantContext>\)\}\)\)$", {"1"}).switches(fn)]
+    # the tenant test of the filter arm is the last one before the engine call in block order
+    cand = [b for b in sw if b.idx < min(i for i, b2 in fn.blocks.items() if not b2.cleanup and ENG.match_block(fn, b2))]
+    if not cand:
+        return [Result("inconclusive", "tenant test of the filter arm not found")]
+    tsw = cand[-1]
+    T_ARM = Arm(r"^discr\(\(\*\{&\(\(_\d+ as Continue\)\.0: Option<TenantContext>\)\}\)\)$", {"1"}, name="tenant is Some (filter arm)", nth=sw.index(tsw))
+    REASSIGN = Ev(r".", kind="any", also=lambda f_, b, t: (t.startswith(fl + " = ") and b.kind != "call") or (b.kind == "call" and t == "%s = %s(%s)" % (b.dest, b.callee, b.args) and b.dest == fl)
+                  or (b.kind == "call" and re.search(r"Vec::<(kyrodb_engine::proto::)?MetadataFilter>::(clear|truncate|drain|retain|split_off|swap_remove|remove)\b", b.callee or "") is not None),
+                  name="`filters` re-assigned / emptied")
+    out = [fc.follows(T_ARM, PUSH, exit="any", exit_ev=ENG)]
+    if fc.count(REASSIGN) > 1:  # the initial Vec::new() is one assignment
+        out.append(fc.never(REASSIGN, frm=PUSH))
+    else:
+        out.append(Result("holds", "`filters` is assigned once (Vec::new) and only pushed to", sample={"fn": fc.name, "kind": "NEVER", "B": REASSIGN.name}))
+    return out
 
 
 def cache_scope(F):
